@@ -581,9 +581,19 @@ class EndpointResponseHandlerGenerator:
             deserialization_code = self._get_cattrs_deserialization_code(strategy.return_type, data_expr)
             writer.write_line(f"return {deserialization_code}")
             self._register_imports_for_type(strategy.return_type, context)
+        elif strategy.return_type == "str" and self._is_non_json_text_response(strategy.response_ir):
+            # text/plain, text/html, text/csv ...: the body is the string, it is not JSON-encoded
+            writer.write_line("return response.text")
         else:
             context.add_import("typing", "cast")
             writer.write_line(f"return cast({strategy.return_type}, {data_expr})")
+
+    @staticmethod
+    def _is_non_json_text_response(response_ir: IRResponse | None) -> bool:
+        """True if the response declares content and none of its content types is a JSON media type."""
+        if response_ir is None or not response_ir.content:
+            return False
+        return all(ct.lower().startswith("text/") and "json" not in ct.lower() for ct in response_ir.content)
 
     def _get_response_schema(self, response_ir: IRResponse) -> IRSchema | None:
         """Extract the schema from a response IR."""
